@@ -20,6 +20,7 @@ import (
 	"sort"
 	"strconv"
 	"strings"
+	"time"
 )
 
 type Stats struct {
@@ -115,6 +116,18 @@ func guard(f func() string) (res string) {
 		}
 	}()
 	return f()
+}
+
+// withWatchdog runs f with a 10 s limit (a hang is reported as "timeout"; the goroutine is abandoned).
+func withWatchdog(f func() string) string {
+	ch := make(chan string, 1)
+	go func() { ch <- f() }()
+	select {
+	case r := <-ch:
+		return r
+	case <-time.After(10 * time.Second):
+		return "timeout"
+	}
 }
 
 var generators = map[string]func(*Ctx){}
